@@ -378,7 +378,7 @@ theorem normalizeOpen_chainF : ∀ (outer : List Frame) (G : List Node) (os oe n
     `fills` of the frontier entries above it and the re-opened frames `ro` of the target below it, `placed` becomes the
     chain of `from`'s ancestors down to the close level around the closed levels, the filling of the close level and
     the re-opened levels -/
-theorem closeFit_delete_eq (S : Schema) {doc : Node} {f : Nat} {rf : RPos} (tgt : RPos) (fr0 : List FItem)
+theorem closeFit_delete_eq (S : Schema) {doc : Node} {rf : RPos} (tgt : RPos) (fr0 : List FItem)
     (lv : CloseLevel) (fills : List (List Node)) (ro : List (Frame × List Node))
     (hlen : fr0.length = rf.depth + 1) (hsome : ∀ it ∈ fr0, ∃ q, it.st = some q)
     (hlv : findCloseLevel S doc tgt fr0 = .ok (some lv)) (hc : lv.depth ≤ rf.depth)
